@@ -1,1 +1,70 @@
-From Verif Require Import Present.
+(* C02 - Deserializing any valid Arrow array yields exactly its logical content.
+   Specification: decode (Arrow/Arr.v: the logical content by the rules of the format, compositional
+   on whole arrays) and present (De/Present.v: what a self-describing read shows for a logical value
+   of a field).  Implementation model: read (De/Reader.v: index arithmetic per accessor). *)
+From Verif Require Import Reader Reader_proofs.
+
+(* Full-strength statement (kept visible): evaluated on every case of the check as the
+   specification oracle RunC02.oracle (all data types); proved below for the leaf kinds. *)
+Definition C02_full : Prop :=
+  forall f a lvs i lv, wf_arr false f a = true -> construct a = true ->
+    decode a = Some lvs -> nth_error lvs i = Some lv ->
+    read a i = of_option (present f lv).
+
+(* nulls exactly where the validity bitmap says so, whatever the bit offset and whatever is stored
+   below a null slot *)
+Theorem C02_validity : forall v vals out i x,
+  apply_validity v vals = Some out -> nth_error vals i = Some x ->
+  exists b0, valid_at v i = Ok b0 /\ nth_error out i = Some (if b0 then x else LNull).
+Proof. exact apply_validity_nth. Qed.
+
+Theorem C02_null_partial : forall n nm nl lvs i lv,
+  decode (ANull n) = Some lvs -> nth_error lvs i = Some lv ->
+  read (ANull n) i = of_option (present (mkField nm DNull nl) lv).
+Proof. exact read_decode_null. Qed.
+
+Theorem C02_bool_partial : forall n v vals nm nl lvs i lv,
+  decode (ABool n v vals) = Some lvs -> nth_error lvs i = Some lv ->
+  read (ABool n v vals) i = of_option (present (mkField nm DBool nl) lv).
+Proof. exact read_decode_bool. Qed.
+
+(* all primitive kinds: integers, floats (bit patterns), dates, times, timestamps, durations,
+   decimals (presented as the formatted text) *)
+Theorem C02_prim_partial : forall k v vals nm nl lvs i lv,
+  decode (APrim k v vals) = Some lvs -> nth_error lvs i = Some lv ->
+  read (APrim k v vals) i = of_option (present (mkField nm (DPrim k) nl) lv).
+Proof. exact read_decode_prim. Qed.
+
+(* strings and binary: slot i is data[offs[i] .. offs[i+1]] - non-zero first offsets and
+   unreferenced parts of the data buffer do not matter *)
+Theorem C02_bytes_partial : forall k v offs data nm nl lvs i lv,
+  decode (ABytes k v offs data) = Some lvs -> nth_error lvs i = Some lv ->
+  (is_utf8_kind k = true -> forall x, lv = LBytes x -> utf8_valid x = true) ->
+  read (ABytes k v offs data) i = of_option (present (mkField nm (DBytes k) nl) lv).
+Proof. exact read_decode_bytes. Qed.
+
+(* layout irrelevance for these kinds: two arrays with the same logical content read the same *)
+Corollary C02_layout_irrelevant_prim : forall k v vals v' vals' lvs i lv,
+  decode (APrim k v vals) = Some lvs -> decode (APrim k v' vals') = Some lvs -> nth_error lvs i = Some lv ->
+  read (APrim k v vals) i = read (APrim k v' vals') i.
+Proof.
+  intros k v vals v' vals' lvs i lv H1 H2 Hx.
+  rewrite (read_decode_prim k v vals [] true lvs i lv H1 Hx), (read_decode_prim k v' vals' [] true lvs i lv H2 Hx). reflexivity.
+Qed.
+
+(* reads never go beyond the length, and the clamped child loops of the model are the loops of the code *)
+Theorem C02_read_oob : forall a idx, arr_len a <= idx -> read a idx = Err.
+Proof. exact read_oob. Qed.
+
+Theorem C02_child_range_faithful : forall e s t, (0 <= s)%Z -> range_z (read e) (arr_len e) s t = naive_range (read e) s t.
+Proof. exact read_child_range. Qed.
+
+(* non-vacuity: garbage under a null, bit offset 5, first offset 2 *)
+Example C02_example :
+  let a := ABytes BUtf8 (Some {| bm_off := 5; bm_data := [160; 1]%N |}) [2; 4; 4; 5; 7]%Z (b "xxhi!ZZz") in
+  decode a = Some [LBytes (b "hi"); LNull; LBytes (b "!"); LBytes (b "ZZ")] /\
+  map (read a) [0; 1; 2; 3] = [Ok (RStr (b "hi")); Ok RNone; Ok (RStr (b "!")); Ok (RStr (b "ZZ"))].
+Proof. vm_compute. split; reflexivity. Qed.
+
+Print Assumptions C02_prim_partial.
+Print Assumptions C02_bytes_partial.
